@@ -135,10 +135,14 @@ class Gen:
             used.append(sep)
         elif kind < 0.92 and self.word_defs():
             tail = nt(r.choice(self.word_defs()))
-        else:
+        elif kind < 0.96:
             inner = fb(alt(*[vlit(v) for v in vals[:2]]) if len(vals) > 1 else vlit(vals[0]),
                        vlit('other'))
             tail = inner
+        else:
+            # a || branch that is itself a juxtaposition
+            j = ('word', (vlit(vals[0]), alt(lit('+1', None), lit('+2', None))))
+            tail = fb(j, vlit('other')) if r.random() < 0.5 else fb(vlit('other'), j)
         if tail[0] == 'lit':
             tail = opt(tail)
         pl = lit(prefix, self.descr_for(prefix) if r.random() < 0.3 else self.descr_of.setdefault(prefix, None))
@@ -235,6 +239,21 @@ class Gen:
                 body = self.expr(self.r.randint(1, max(1, self.depth - 1)))
                 self.def_word_safe[name] = False
             self.defs[name] = body
+        chain = []
+        if r.random() < 0.25:
+            # a chain of definitions, each reachable only through the previous one
+            k = r.randint(3, 6)
+            chain = ['CH%d' % i for i in range(k)]
+            for i in range(k - 1, -1, -1):
+                if i == k - 1:
+                    body = alt(lit('end%d' % i, None), lit('fin', self.descr_of.setdefault('fin', None)))
+                else:
+                    nxt = nt(chain[i + 1])
+                    body = r.choice([seq(lit('c%d' % i, None), nxt), alt(seq(lit('c%d' % i, None), nxt), lit('s%d' % i, None)),
+                                     seq(opt(lit('o%d' % i, None)), nxt)])
+                self.defs[chain[i]] = body
+                self.def_word_safe[chain[i]] = False
+            names = names + chain
         if self.specs:
             for name in r.sample(['S1', 'S2', 'S3'], r.randint(0, 2)):
                 self.spec_names.append(name)
@@ -242,6 +261,8 @@ class Gen:
         calls = []
         for _ in range(ncalls):
             e = self.expr(self.depth, top=True)
+            if chain and _ == 0:
+                e = r.choice([seq(e, nt(chain[0])), alt(e, nt(chain[0])), seq(nt(chain[0]), e)])
             if self.desc_groups and self.descs and r.random() < 0.3:
                 e = seq(e, self.desc_group())
             calls.append(call(self.cmdname, e))
